@@ -20,7 +20,7 @@ const (
 	DefAssign DefKind = iota
 	DefRangeKey
 	DefRangeVal
-	DefCommaOk   // second value of v, ok := m[k] / x.(T) / <-c
+	DefCommaOk // second value of v, ok := m[k] / x.(T) / <-c
 	DefTypeSwitch
 )
 
@@ -77,12 +77,13 @@ func (s *State) clone() *State {
 }
 
 type walkResult struct {
-	at        map[ast.Node]*State
-	undecided []string
-	deferred  map[ast.Node]bool // call nodes that are deferred
-	inGo      map[ast.Node]bool
-	exits     []exitPoint
+	at          map[ast.Node]*State
+	undecided   []string
+	deferred    map[ast.Node]bool // call nodes that are deferred
+	inGo        map[ast.Node]bool
+	exits       []exitPoint
 	assignCount map[types.Object]int
+	endOf       map[ast.Node]*State // state at the fall-through end of an if/else/loop body block
 }
 
 type exitPoint struct {
@@ -92,13 +93,13 @@ type exitPoint struct {
 }
 
 type walker struct {
-	p        *Prog
-	fn       *Func
-	res      *walkResult
-	nassign  map[types.Object]int
-	addrOf   map[types.Object]bool
-	breaks   []*[]*State // innermost last: collectors for switch/select breaks (nil entry for loops)
-	curLit   *ast.FuncLit
+	p       *Prog
+	fn      *Func
+	res     *walkResult
+	nassign map[types.Object]int
+	addrOf  map[types.Object]bool
+	breaks  []*[]*State // innermost last: collectors for switch/select breaks (nil entry for loops)
+	curLit  *ast.FuncLit
 }
 
 // Walk returns (cached) the per-node states of fn.
@@ -106,7 +107,7 @@ func (p *Prog) Walk(fn *Func) *walkResult {
 	if r, ok := p.walks[fn]; ok {
 		return r
 	}
-	w := &walker{p: p, fn: fn, res: &walkResult{at: map[ast.Node]*State{}, deferred: map[ast.Node]bool{}, inGo: map[ast.Node]bool{}},
+	w := &walker{p: p, fn: fn, res: &walkResult{at: map[ast.Node]*State{}, deferred: map[ast.Node]bool{}, inGo: map[ast.Node]bool{}, endOf: map[ast.Node]*State{}},
 		nassign: map[types.Object]int{}, addrOf: map[types.Object]bool{}}
 	p.walks[fn] = w.res
 	w.res.assignCount = w.nassign
@@ -274,9 +275,11 @@ func (w *walker) stmt(s ast.Stmt, st *State) *State {
 		}
 		t, f := w.cond(x.Cond, st)
 		tEnd := w.block(x.Body.List, t)
+		w.res.endOf[x.Body] = tEnd
 		var fEnd *State
 		if x.Else != nil {
 			fEnd = w.stmt(x.Else, f)
+			w.res.endOf[x.Else] = fEnd
 		} else {
 			fEnd = f
 		}
